@@ -204,6 +204,8 @@ def rule_hash(
         if eq is not None:
             zip_prefix_equality(rep, c, eq, rule)
             radix_blind_component(ctx, rep, c, eq, rule)
+        if hs is not None:
+            hash_memo(rep, c, hs, rule)
         if c.name in EXCEPTIONS:
             rep.observe(f'{rule}: {c.name} exempt: {EXCEPTIONS[c.name]}')
             continue
@@ -368,6 +370,41 @@ def zip_prefix_equality(
 # equality by comparing such a component must compare the radixes itself,
 # otherwise two gates acting on different numbers of qudits are one key in
 # every table keyed by gate (Circuit._gate_info, the pickle gate table).
+def hash_memo(rep: Report, c: ClassInfo, hs: FunctionInfo, rule: str) -> None:
+    """A hash value is only meaningful inside the process that computed it
+    (str / bytes hashing is salted per interpreter).  A __hash__ that stores
+    its result on the instance ships that number along when the object is
+    pickled to another worker, where an equal object built there hashes
+    differently: equal objects, unequal hashes, dictionary look-ups miss.
+    Memoising is only safe if the cached attribute is dropped from the
+    pickled state (__getstate__ / __reduce__ in the same class)."""
+    stores = [
+        norm(t) for n in ast.walk(hs.node) if isinstance(
+            n, (ast.Assign, ast.AugAssign, ast.AnnAssign))
+        for t in (n.targets if isinstance(n, ast.Assign) else [n.target])
+        if isinstance(t, ast.Attribute) and isinstance(t.value, ast.Name)
+        and t.value.id == 'self'] + [
+        norm(n) for n in ast.walk(hs.node) if isinstance(n, ast.Call)
+        and norm(n.func) in ('setattr', 'object.__setattr__',
+                             'self.__dict__.__setitem__',
+                             'self.__dict__.setdefault',
+                             'self.__dict__.update')] + [
+        norm(t) for n in ast.walk(hs.node) if isinstance(n, ast.Assign)
+        for t in n.targets if isinstance(t, ast.Subscript)
+        and norm(t.value) == 'self.__dict__']
+    rep.count()
+    guarded = any(m in c.methods for m in ('__getstate__', '__reduce__',
+                                           '__reduce_ex__'))
+    rep.check(
+        not stores or guarded, rule, f'{c.name}.__hash__:memo', c.path,
+        hs.lineno, '__hash__ keeps no per-process value on the instance',
+        f'{c.name}.__hash__ stores its result on the instance ({stores[:2]}) '
+        'and the class does not drop it from its pickled state: the cached '
+        'number travels to other processes, where equal objects hash '
+        'differently', key='memo',
+    )
+
+
 RADIX_BLIND = ('UnitaryMatrix', 'StateVector')
 
 
